@@ -22,11 +22,11 @@ import (
 // mk holds the marker secrets: fixed, recognisable values that must never
 // show up in any ToDisplayJSON output.
 var mk struct {
-	secret, secret2    string // 32-byte cluster secrets, hex
-	privKey, privKey2  string // libp2p private keys, base64 (as written in the config)
-	peerID, peerID2    string // matching peer IDs
-	user, pass         string // basic-auth credentials
-	certFile, keyFile  string // a real TLS pair in the scratch dir (paths are not secrets)
+	secret, secret2   string // 32-byte cluster secrets, hex
+	privKey, privKey2 string // libp2p private keys, base64 (as written in the config)
+	peerID, peerID2   string // matching peer IDs
+	user, pass        string // basic-auth credentials
+	certFile, keyFile string // a real TLS pair in the scratch dir (paths are not secrets)
 }
 
 func detKey(seedByte byte) (string, string, error) {
